@@ -289,11 +289,11 @@ func runCheck(cmd, prop, tier, repo, root, only string, keep, verbose, writeExpe
 				oc := *o
 				oc.Focus = true
 				qc := buildQuery(&oc, true, false)
-				if rc := quickSolve(qc, smtDir, o.Name+"-focus", 4); rc.Result == "unsat" {
+				if rc := quickSolve(qc, smtDir, o.Name+"-focus", max(4, timeout/8)); rc.Result == "unsat" {
 					rc.Solver += "(focused)"
 					best, allr = rc, []SolverResult{rc}
 					provedQuery = qc
-				} else if rs, ok := splitDischarge(o, smtDir, 8, true); ok {
+				} else if rs, ok := splitDischarge(o, smtDir, max(8, timeout/4), true); ok {
 					// the same, one case per branch of the join the obligation sits behind
 					best, allr = rs, []SolverResult{rs}
 					provedQuery = qc
